@@ -202,6 +202,20 @@ class A(object):
 class S(A): pass
 ARGS = ((1, 2), {'y': 5})
 ''',
+    'forger-method-on-container': '''
+from sigtools import specifiers
+class A(object):
+    # a container: falsy while empty, truthy once a call has put something in
+    def __init__(self): self.items = []
+    def __len__(self): return len(self.items)
+    def target(self, x, y=1): return (x, y)
+    @specifiers.forwards_to_method('target')
+    def m(self, a, *args, **kwargs):
+        self.items.append(a)
+        return (self, a, getattr(self, 'tar' + 'get')(*args, **kwargs))
+class S(A): pass
+ARGS = ((1, 2), {'y': 5})
+''',
     'forwards-to-super-emulate': '''
 from sigtools import specifiers
 class B(object):
@@ -244,16 +258,17 @@ ARGS = ((1, 7), {'b': 5})
 ''',
 }
 
-ALPHABET = ['R1', 'R2', 'B1', 'B2', 'C1', 'C2', 'X1', 'X2', 'RC', 'RS', 'N1', 'I1', 'D', 'F1', 'F2']
+ALPHABET = ['R1', 'R2', 'B1', 'B2', 'C1', 'C2', 'X1', 'X2', 'RC', 'RS', 'N1', 'I1', 'D', 'F1', 'F2', 'A1', 'A2']
 # R<i> retrieve on instance i    B<i> bind on instance i and keep the bound object
 # C<i> call through instance i   X<i> drop instance i (+ everything obtained from it) and gc.collect()
 # RC retrieve through the class  RS retrieve on an instance of the subclass
 # N<i> replace instance i by a fresh one   I1 inspect.signature on instance 1   D re-decorate (annotate)
+# A<i> retrieve on instance i without automatic discovery (auto=False: only what was declared counts)
 # F<i> a retrieval on instance i that FAILS: one of the calls it makes into code outside sigtools raises
 #      (failpoint injector of W-FAULT); the outcome is discarded -- what follows must be unaffected
 
 
-TARGETED = [['B1', 'D', 'R1', 'R2'], ['R1', 'D', 'R1', 'I1', 'R2'], ['C1', 'D', 'R2', 'R1'], ['B1', 'B2', 'D', 'D', 'R2', 'R1'],
+TARGETED = [['A1', 'C1', 'A1', 'A2'], ['A2', 'C1', 'A1', 'R1', 'I1'], ['B1', 'D', 'R1', 'R2'], ['R1', 'D', 'R1', 'I1', 'R2'], ['C1', 'D', 'R2', 'R1'], ['B1', 'B2', 'D', 'D', 'R2', 'R1'],
             ['R1', 'D', 'RS', 'R1', 'RC'], ['B1', 'D', 'C1', 'R1'], ['B1', 'F1', 'D', 'R1', 'R2'], ['I1', 'D', 'I1', 'X1', 'R2']]
 
 
@@ -276,6 +291,8 @@ def pristine(kind, label, annotated):
                 r = render_sig(sigtools.signature(A().m))
             elif label == 'instance-inspect':
                 r = render_sig(inspect.signature(A().m))
+            elif label == 'instance-noauto':
+                r = render_sig(sigtools.signature(A().m, auto=False))
             elif label == 'class':
                 r = render_sig(sigtools.signature(A.m))
             else:
@@ -340,6 +357,11 @@ def run_history(ctx, kind, history):
                 if inst[i] is None:
                     continue
                 observe('instance', sigtools.signature(inst[i].m))
+            elif op[0] == 'A':
+                i = int(op[1])
+                if inst[i] is None:
+                    continue
+                observe('instance-noauto', sigtools.signature(inst[i].m, auto=False))
             elif op == 'I1':
                 if inst[1] is None:
                     continue
